@@ -20,6 +20,7 @@ type keyState struct {
 
 type signRec struct {
 	id       *Term
+	hashed   bool // key kind: a key of another kind is another key, whatever its token
 	msg, sig []*Term
 }
 
@@ -74,7 +75,7 @@ func (ex *Exec) mkKeyKind(id *Term, priv, hashed bool) Value {
 					ex.addAxiom(mkNot(ex.strEq(r.sig, sig)))
 				}
 			}
-			ex.signs = append(ex.signs, &signRec{id: id, msg: msg, sig: sig})
+			ex.signs = append(ex.signs, &signRec{id: id, hashed: hashed, msg: msg, sig: sig})
 			return Tuple{termsToValues(sig), Iface{}}
 		}
 	} else {
@@ -82,7 +83,7 @@ func (ex *Exec) mkKeyKind(id *Term, priv, hashed bool) Value {
 			msg, sig := termsOf(args[0]), termsOf(args[1])
 			ex.verifies = append(ex.verifies, &signRec{id: id, msg: msg, sig: sig})
 			for _, r := range ex.signs {
-				if len(r.msg) != len(msg) || len(r.sig) != len(sig) {
+				if len(r.msg) != len(msg) || len(r.sig) != len(sig) || r.hashed != hashed {
 					continue
 				}
 				c := mkAnd(mkEq(r.id, id), mkAnd(ex.strEq(r.msg, msg), ex.strEq(r.sig, sig)))
